@@ -90,7 +90,49 @@ func (c *mockConn) ShipHandshakeState() (model.ShipMessageExchangeState, error) 
 	return c.st, nil
 }
 
-type hubReader struct{ log *obsLog }
+type hubReader struct {
+	log *obsLog
+	gen *genTracker
+}
+
+// genTracker orders the pairing detail objects of a SKI by the moment they became the current one; a
+// notification that shows an object older than one already shown is logged as "stale:<ski>"
+type genTracker struct {
+	mu        sync.Mutex
+	order     map[string][]*api.ConnectionStateDetail
+	delivered map[string]int
+}
+
+func newGenTracker() *genTracker {
+	return &genTracker{order: map[string][]*api.ConnectionStateDetail{}, delivered: map[string]int{}}
+}
+
+func (g *genTracker) index(ski string, d *api.ConnectionStateDetail) int {
+	for i, x := range g.order[ski] {
+		if x == d {
+			return i
+		}
+	}
+	g.order[ski] = append(g.order[ski], d)
+	return len(g.order[ski]) - 1
+}
+
+func (g *genTracker) observe(ski string, d *api.ConnectionStateDetail) {
+	g.mu.Lock()
+	g.index(ski, d)
+	g.mu.Unlock()
+}
+
+func (g *genTracker) notified(ski string, d *api.ConnectionStateDetail) bool {
+	g.mu.Lock()
+	defer g.mu.Unlock()
+	i := g.index(ski, d)
+	if i < g.delivered[ski] {
+		return true
+	}
+	g.delivered[ski] = i
+	return false
+}
 
 func (r *hubReader) RemoteSKIConnected(string) {}
 func (r *hubReader) RemoteSKIDisconnected(ski string) {
@@ -107,6 +149,9 @@ func (r *hubReader) ServicePairingDetailUpdate(ski string, d *api.ConnectionStat
 	e := ""
 	if d.Error() != nil {
 		e = "e"
+	}
+	if r.gen != nil && r.gen.notified(ski, d) {
+		r.log.add("stale:" + hex.EncodeToString([]byte(ski)))
 	}
 	r.log.add(fmt.Sprintf("pairing:%s:%d%s", hex.EncodeToString([]byte(ski)), uint(d.State()), e))
 }
@@ -199,7 +244,8 @@ func runHubScenario(seed int64, maxEv int, port int) *hubScenario {
 		}
 	}()
 	certificate, _ := cert.CreateCertificate("unit", "verif", "DE", fmt.Sprintf("hub-%d", seed))
-	h := hub.NewHub(&hubReader{log}, &inertMdns{log}, port, certificate, api.NewServiceDetails("0011223344"))
+	gens := newGenTracker()
+	h := hub.NewHub(&hubReader{log, gens}, &inertMdns{log}, port, certificate, api.NewServiceDetails("0011223344"))
 
 	conns := map[string]*mockConn{} // registered (as far as the harness knows)
 	var allConns []*mockConn
@@ -220,6 +266,7 @@ func runHubScenario(seed int64, maxEv int, port int) *hubScenario {
 		for _, k := range keys {
 			svc := h.ServiceForSKI(k)
 			d := svc.ConnectionStateDetail()
+			gens.observe(k, d)
 			c := h.VerifConnectionFor(k)
 			cid := "-"
 			if mc, ok := c.(*mockConn); ok {
@@ -307,6 +354,11 @@ func runHubScenario(seed int64, maxEv int, port int) *hubScenario {
 			}
 			settle(80 * time.Millisecond)
 			record("pairingdetail "+hexs(raw), []string{fmt.Sprintf("detail:%d%s", uint(d.State()), e)})
+		case choice < 47 && rnd.Intn(3) != 0:
+			raw := spell(rnd, k)
+			svc := h.ServiceForSKI(raw)
+			settle(60 * time.Millisecond)
+			record("lookup "+hexs(raw), []string{fmt.Sprintf("service:%s:%s", hexs(svc.SKI()), b01(svc.Trusted()))})
 		case choice < 46:
 			b := rnd.Intn(2) == 0
 			h.SetAutoAccept(b)
@@ -360,6 +412,7 @@ func runHubScenario(seed int64, maxEv int, port int) *hubScenario {
 					if h.ServiceForSKI(k).ConnectionStateDetail() != before {
 						changed = true
 					}
+					gens.observe(k, h.ServiceForSKI(k).ConnectionStateDetail())
 					parts = append(parts, fmt.Sprintf("%d:0", uint(st)))
 				}
 				settle(60 * time.Millisecond)
